@@ -1222,7 +1222,14 @@ def candidate_fractional(rng, count):
         Ps = {"sp": P["sp"] * u, "dp": P["dp"], "su": P["su"] * u, "md": P["md"] * u + rng.choice([0, 0, 3]), "ms": P["ms"] * u, "bs": P["bs"] * u}
         mult = rng.choice(["1", "1", "1/2", "2", "0"])
         rl = R10[-1] // u + 1 + rng.randrange(0, 3000)
-        yield (f"CANDIDATE unit={u} {pstr(Ps)} mult={mult} var={rng.choice([0, 0, 1])} it=1 rev={rev} "
+        trimq = ""
+        if rng.random() < 0.5:
+            # the molecule as it is in the file: first label not at 0, an unlabelled tail; trimmed by the operation itself
+            off = rng.randrange(1, 3000)
+            Q10 = [q + off for q in Q10]
+            L = Q10[-1] // u + 1 + rng.randrange(0, 500)
+            trimq = " trimq=1"
+        yield (f"CANDIDATE unit={u}{trimq} {pstr(Ps)} mult={mult} var={rng.choice([0, 0, 1])} it=1 rev={rev} "
                f"peaks={','.join(map(str, peaks))} REF={mapstr(1, u * rl - (u - 1), 0, R10)} QRY={mapstr(7, u * L - (u - 1), 0, Q10)}")
 
 
@@ -1244,3 +1251,76 @@ def seq_fractional(rng, count):
         op = rng.choice(["VEC", "SEQ"])
         extra = f" blur={rng.choice([0, 1, 2, 4])}" if op == "SEQ" else ""
         yield f"{op} unit={u} res={res * u}{extra} start={start} stop={stop} POS={','.join(map(str, pos))}"
+
+
+def segs_fractional(rng, count):
+    """the segment scan on scores with two or more decimals (coordinates such as x.25, a penalty multiplier such as 0.25 or
+    0.37): the line is in 1/den, the real factory gets exact fractions.  Includes runs whose sum reaches a threshold
+    exactly and improvements smaller than 0.05."""
+    for _ in range(count):
+        den = rng.choice([4, 8, 20, 100])
+        n = rng.randrange(0, 40)
+        ms = rng.choice([1000, 500, 1]) * den
+        bs = rng.choice([1200, 0, 300]) * den
+        seq = []
+        for _ in range(n):
+            c = rng.random()
+            if c < 0.5:
+                seq.append(1000 * den - rng.randrange(0, 1500 * den))
+            elif c < 0.7:
+                seq.append(-250 * den)
+            elif c < 0.85:
+                seq.append(rng.choice([1, -1, 2, 3, den // 4, -(den // 4)]))        # a tiny improvement / loss
+            else:
+                seq.append(250 * den + den // 4)
+        yield f"SEGS den={den} ms={ms} bs={bs} S={','.join(map(str, seq))}"
+    yield "SEGS den=4 ms=4000 bs=4800 S=1001,1001,1001,997"          # sums to exactly minScore
+
+
+def checkoverlap_boundary(rng, count):
+    """join eligibility right at the boundary, at small and at very large reference coordinates (chromosome scale): gap equal
+    to maxDifference, one more, a few hundred more"""
+    for _ in range(count):
+        base = rng.choice([0, 1000000, 20000000, 100000000, 240000000])
+        diff = rng.choice([0, 1000, 100000, 100400])
+        ln = rng.randrange(20000, 200000)
+        gap = diff + rng.choice([0, 0, 1, -1, 5, 50, 200, 900, 3000, -3000])
+        rev = rng.randrange(2)
+        a = _synthetic_row(0, [(10, base, 1, 0, 0), (11, base + ln, 5, ln, 0)], rev=rev)
+        b0 = base + ln + gap
+        b = _synthetic_row(0, [(40, b0, 9, ln + 5000, 0), (41, b0 + ln, 14, 2 * ln + 5000, 0)], rev=rev if rng.random() < 0.9 else 1 - rev,
+                           rid=1 if rng.random() < 0.9 else 2, rest=1)
+        if rng.random() < 0.5:
+            a, b = b, a
+        yield f"CHECKOVERLAP diff={diff} A={a} B={b}"
+
+
+def resolverows_interleaved(rng, count):
+    """the two rows of one query on one reference, with rows of OTHER queries on OTHER references placed between them in the
+    input list (as happens when several references have hits: first-pass rows by query id, then second-pass rows by query id)"""
+    import codec
+    import re
+    for P, A, B, others in row_pairs_random(rng, count):
+        mid = []
+        for k in range(rng.randrange(1, 3)):
+            other = _synthetic_row(0, [(200 + k, 700000, 1, 0, 0), (201 + k, 705000, 2, 5000, 0)], qid=900 + k, rid=50 + k, rest=rng.randrange(2))
+            mid.append(other)
+        rows = [codec.show_row_t(A)] + mid + [codec.show_row_t(B)]
+        diff = rng.choice([0, 1000, 20000, 100000, 100000, 1000000])
+        yield f"RESOLVEROWS {pstr(P)} diff={diff} ROWS={'^'.join(rows)}"
+
+
+def getseq_random(rng, count):
+    """`OpticalMap.getSequence` on molecules that SHARE id and length but differ in their labels (the fragments the second pass
+    cuts from one query do), whole-map and windowed, both strands"""
+    combos = [(rng.randrange(1, 5), rng.choice([50001, 120000, 7000])) for _ in range(4)]
+    for _ in range(count):
+        mid, ln = rng.choice(combos)
+        n = rng.randrange(1, 25)
+        pos = sorted(rng.randrange(0, ln) for _ in range(n))
+        res, bl = rng.choice([(100, 4), (1400, 1), (100, 4), (50, 0)])
+        if rng.random() < 0.7:
+            start, stop = 0, "none"
+        else:
+            start, stop = rng.choice([0, -3000, 2500]), rng.choice(["none", 0, ln // 2])
+        yield f"GETSEQ res={res} blur={bl} start={start} stop={stop} rev={rng.randrange(2)} M={mapstr(mid, ln, rng.choice([0, 0, 4]), pos)}"
